@@ -38,6 +38,18 @@ def unphase_header(header):
             header.formats.remove_header(tag)
 
 
+def missing_contigs(vcf_path):
+    """Return the contigs that occur in the records but are not defined in the header"""
+    with VariantFile(vcf_path) as variant_file:
+        defined = set(variant_file.header.contigs)
+        missing = []
+        for record in variant_file:
+            if record.contig not in defined:
+                defined.add(record.contig)
+                missing.append(record.contig)
+    return missing
+
+
 def run_unphase(vcf_path, outfile):
     """
     Read a VCF file, remove phasing information, and write the result to
@@ -47,6 +59,10 @@ def run_unphase(vcf_path, outfile):
         reader = VariantFile(sys.stdin)
     else:
         reader = VariantFile(vcf_path)
+        # Contig header lines are optional in VCF, but pysam cannot write a record whose contig
+        # is missing from the header of the output file
+        for contig in missing_contigs(vcf_path):
+            reader.header.contigs.add(contig)
 
     unphase_header(reader.header)
     with VariantFile(outfile, mode="w", header=reader.header) as writer:
